@@ -166,6 +166,26 @@ class Walker:
             self.outer_locals |= set(p.params) | _assigned_names(p.node)
             p = p.parent
         self.mut = _mutations(node)
+        # a local handed by name to a helper introduced after the pinned tree that mutates the corresponding
+        # parameter is mutated here, too (the helper is analysed spliced into this function)
+        for n in ast.walk(node):
+            if not isinstance(n, ast.Call):
+                continue
+            callee = None
+            skip = 0
+            if isinstance(n.func, ast.Name):
+                callee = prog.functions.get(prog.resolve_name(self.mod, n.func.id))
+            elif isinstance(n.func, ast.Attribute) and isinstance(n.func.value, ast.Name) and fi.cls is not None and fi.params and n.func.value.id == fi.params[0]:
+                callee = prog.find_method(fi.cls.qualname, n.func.attr)
+                skip = 1
+            if callee is None or isinstance(callee.node, ast.Lambda) or callee.qualname in known_functions():
+                continue
+            cm = _mutations(callee.node)
+            ps = callee.params[skip:]
+            pairs = list(zip(n.args, ps)) + [(k.value, k.arg) for k in n.keywords if k.arg in ps]
+            for arg, pn in pairs:
+                if isinstance(arg, ast.Name) and (cm.get(pn, set()) & _MUTATORS):
+                    self.mut.setdefault(arg.id, set()).add("<setitem>")
         self.events: List[Event] = []
         self.returns: List[Event] = []
         self.unknowns: List[str] = []
@@ -184,6 +204,14 @@ class Walker:
         e = Event(len(self.events), kind, T.strip(raw), raw, node, self.cur_stmt, T.strip(self.guards),
                   T.strip(self.iters), self.tries, extra.pop("awaited", False), extra)
         self.events.append(e)
+        if kind == "store":
+            # a local that was bound to the access path being overwritten now denotes the *old* object:
+            # stop substituting the path for it
+            tgt = e.term[1]
+            if isinstance(tgt, tuple) and tgt and tgt[0] in ("attr", "idx"):
+                for nm, v in list(self.env.items()):
+                    if isinstance(v, tuple) and len(v) == 4 and v[0] == "let" and T.contains((T.strip(v[3]),), tgt):
+                        self.env[nm] = T.var(nm)
         return e
 
     # ------------------------------------------------------------------ expressions
@@ -309,12 +337,27 @@ class Walker:
 
     def e_IfExp(self, n: ast.IfExp) -> Term:
         c = self.expr(n.test)
-        a, b = self.expr(n.body), self.expr(n.orelse)
+        # the branches are evaluated conditionally: events inside them carry the condition
+        saved = self.guards
+        self.guards = saved + (("g", c, True),)
+        a = self.expr(n.body)
+        self.guards = saved + (("g", c, False),)
+        b = self.expr(n.orelse)
+        self.guards = saved
         sa, sb = T.strip(a), T.strip(b)
         if sa[0] == "bag" and sb[0] == "bag":
             g1, g0 = ("g", c, True), ("g", c, False)
             return ("bag", tuple(("elem", e[1], (g1,) + e[2], e[3]) for e in sa[1])
                     + tuple(("elem", e[1], (g0,) + e[2], e[3]) for e in sb[1]), sa[2])
+        # `max(xs) if xs else d` is `max(xs, default=d)`
+        if sa[0] == "agg" and sa[1] in ("min", "max") and not sa[3]:
+            from .boolfn import canon_leaf
+            try:
+                leaf, pol = canon_leaf(c)
+            except Exception:
+                leaf, pol = None, True
+            if pol and leaf is not None and T.strip(leaf)[0] == "bag" and T.strip(leaf)[1] == sa[2][1]:
+                return ("agg", sa[1], sa[2], (("default", b),))
         return ("ifexp", c, a, b)
 
     def e_Await(self, n: ast.Await) -> Term:
@@ -488,6 +531,12 @@ class Walker:
         sv = T.strip(value)
         is_acc_init = (sv[0] == "bag" and (len(sv) < 3 or sv[2] in ("list", "set", "gen"))) or (sv[0] == "call" and sv[1][0] == "glob" and sv[1][1] in ("list", "set") and not sv[2])
         muts = self.mut.get(name, set()) & _MUTATORS
+        # `xs = list(ys)` that is extended later: a collection that starts with the elements of ys
+        if (not is_acc_init and sv[0] == "call" and sv[1][0] == "glob" and sv[1][1] in ("list", "set") and len(sv[2]) == 1 and not sv[3]
+                and muts and muts <= {"append", "add", "extend", "update", "<aug>"} and self._in_loop == 0):
+            self.acc_ctx[name] = (len(self.guards), len(self.iters))
+            self.env[name] = ("bag", (("elem", ("star", sv[2][0]), (), ()),), sv[1][1])
+            return
         if is_acc_init and muts <= {"append", "add", "extend", "update", "<aug>"} and self._in_loop == 0:
             self.acc_ctx[name] = (len(self.guards), len(self.iters))
             kind = sv[2] if sv[0] == "bag" else sv[1][1]
@@ -856,9 +905,38 @@ def summarise(prog: Program, fi: FuncInfo) -> Summary:
         w.returns.append(w.emit("return", w.expr(fi.node.body), fi.node))
     else:
         w.block(fi.node.body)
-    s = Summary(fi, w.events, w.returns, w.env, w.locals, w.unknowns)
+    events = fuse_events(w.events)
+    s = Summary(fi, events, [e for e in events if e.kind == "return"], w.env, w.locals, w.unknowns)
     fi._summary = s  # type: ignore[attr-defined]
     return s
+
+
+def fuse_events(events: List[Event]) -> List[Event]:
+    """Comprehension fusion on every event: terms and guards are fused, and an event inside a loop
+    over a collection that was itself built from guarded / iterated elements is re-expressed as
+    events over the underlying iteration (one per element of the collection)."""
+    out: List[Event] = []
+    changed = False
+    for e in events:
+        term, guards = T.fuse(e.term), T.fuse(e.guards)
+        iters = T.fuse(e.iters)
+        parts = T.fuse_elem(("elem", ("§ev", term, guards), (), iters)) if any(T.is_term(i) and i[0] == "it" and len(i) >= 3 and T._plain_bag(i[2]) is not None and T._plain_bag(i[2])[1] for i in iters) else None
+        if parts is None:
+            if term is not e.term and (term != e.term or guards != e.guards or iters != e.iters):
+                changed = True
+                out.append(Event(len(out), e.kind, term, T.fuse(e.raw), e.node, e.stmt, guards, iters, e.tries, e.awaited, e.extra))
+            else:
+                out.append(Event(len(out), e.kind, e.term, e.raw, e.node, e.stmt, e.guards, e.iters, e.tries, e.awaited, e.extra) if changed else e)
+            continue
+        changed = True
+        for el in parts:
+            _, (_, t2, g2), ig, it2 = el
+            out.append(Event(len(out), e.kind, t2, t2, e.node, e.stmt, tuple(g2) + tuple(ig), tuple(it2), e.tries, e.awaited, e.extra))
+    if not changed:
+        return events
+    for i, e in enumerate(out):
+        e.idx = i
+    return out
 
 
 # ----------------------------------------------------------------------------- helper inlining
@@ -955,8 +1033,31 @@ def fold_returns(s: Summary) -> Optional[Term]:
     return val
 
 
+_KNOWN: Optional[Set[str]] = None
+
+
+def known_functions() -> Set[str]:
+    global _KNOWN
+    if _KNOWN is None:
+        import os
+        path = os.path.join(os.path.dirname(os.path.abspath(__file__)), "known_functions.txt")
+        _KNOWN = {l.strip() for l in open(path) if l.strip() and not l.startswith("#")}
+    return _KNOWN
+
+
+def is_new_helper(fi: FuncInfo) -> bool:
+    """A function that does not exist in the pinned tree: an extracted helper."""
+    return not isinstance(fi.node, ast.Lambda) and fi.qualname not in known_functions()
+
+
 def spliceable(prog: Program, fi: FuncInfo, callee: FuncInfo) -> bool:
-    if callee.is_async or callee.cls is not None or callee.name in SPLICE_ATOMIC or isinstance(callee.node, ast.Lambda):
+    if isinstance(callee.node, ast.Lambda) or callee.qualname == fi.qualname:
+        return False
+    if is_new_helper(callee):
+        # helpers introduced after the pinned tree: sync or async (when awaited at the call), functions or
+        # methods, of any module of the package
+        return len(summarise(prog, callee).events) <= 200 and not any(e.kind == "yield" for e in summarise(prog, callee).events)
+    if callee.is_async or callee.cls is not None or callee.name in SPLICE_ATOMIC:
         return False
     # nested helpers of this function, or small module-level helpers of the same module
     nested = callee.parent is not None and callee.parent.qualname == fi.qualname
@@ -966,49 +1067,127 @@ def spliceable(prog: Program, fi: FuncInfo, callee: FuncInfo) -> bool:
     return len(summarise(prog, callee).events) <= 40
 
 
+def _resolve_callee(prog: Program, fi: FuncInfo, e: Event) -> Tuple[Optional[FuncInfo], Optional[Term]]:
+    """(callee, receiver) of a call event: package functions by resolved name, methods called on the
+    caller's own `self`."""
+    f = e.term[1]
+    if f[0] == "glob":
+        return prog.functions.get(f[1]), None
+    if f[0] == "attr" and fi.cls is not None and fi.params and f[1] == T.var(fi.params[0]):
+        m = prog.find_method(fi.cls.qualname, f[2])
+        if m is not None and not any(ast.unparse(d) in ("staticmethod", "classmethod", "property") for d in m.node.decorator_list):
+            return m, f[1]
+        if m is not None and any(ast.unparse(d) == "staticmethod" for d in m.node.decorator_list):
+            return m, None
+    return None, None
+
+
+def _bind_params(callee: FuncInfo, recv: Optional[Term], args: Tuple[Term, ...], kws: Tuple[Tuple[str, Term], ...]) -> Optional[Dict[Term, Term]]:
+    if any(a[0] in ("star", "star2") for a in args) or any(k in ("**", None) for k, _ in kws):
+        return None
+    params = list(callee.params)
+    mapping: Dict[Term, Term] = {}
+    if recv is not None:
+        if not params:
+            return None
+        mapping[T.var(params[0])] = recv
+        params = params[1:]
+    a = callee.node.args
+    if a.vararg is not None or a.kwarg is not None:
+        return None
+    if len(args) > len(params):
+        return None
+    for p, v in zip(params, args):
+        mapping[T.var(p)] = v
+    rest = params[len(args):]
+    kwd = dict(kws)
+    # defaults (constants only)
+    names = [x.arg for x in a.posonlyargs + a.args]
+    defaults: Dict[str, ast.AST] = {}
+    for nm, d in zip(names[len(names) - len(a.defaults):], a.defaults):
+        defaults[nm] = d
+    for x, d in zip(a.kwonlyargs, a.kw_defaults):
+        if d is not None:
+            defaults[x.arg] = d
+    for p in rest:
+        if p in kwd:
+            mapping[T.var(p)] = kwd.pop(p)
+        elif p in defaults and isinstance(defaults[p], ast.Constant):
+            mapping[T.var(p)] = T.const(defaults[p].value)
+        else:
+            return None
+    if kwd:
+        return None
+    return mapping
+
+
+_SPLICING: Set[str] = set()
+
+
 def spliced(prog: Program, fi: FuncInfo) -> Summary:
-    """The function's summary with the bodies of small synchronous helpers (nested functions and
-    same-module helpers, one level) spliced in at their call sites: parameters substituted, the
-    helper's events re-guarded by the call site's context, and later uses of the call's value
-    replaced by the helper's folded return value.  Extracting a block into a helper then leaves
-    the facts the rules look at unchanged."""
+    """The function's summary with the bodies of helpers spliced in at their call sites (small
+    synchronous nested / same-module helpers of the pinned tree, and every helper that a later change
+    introduced -- see known_functions.txt): parameters substituted, the helper's events re-guarded by
+    the call site's context, and later uses of the call's value replaced by the helper's folded
+    return value.  Extracting a block into a helper then leaves the facts the rules look at unchanged."""
     cached = getattr(fi, "_spliced", None)
     if cached is not None:
         return cached
     base = summarise(prog, fi)
-    subst: Dict[Term, Term] = {}
-    out: List[Event] = []
-
-    def add(kind, term, node, stmt, guards, iters, tries, awaited, extra) -> Event:
-        ev = Event(len(out), kind, term, term, node, stmt, guards, iters, tries, awaited, extra)
-        out.append(ev)
-        return ev
-
-    changed = False
-    for e in base.events:
-        term = T.replace(e.term, subst) if subst else e.term
-        guards = T.replace(e.guards, subst) if subst else e.guards
-        iters = T.replace(e.iters, subst) if subst else e.iters
-        f = e.term[1] if e.kind == "call" else None
-        callee = prog.functions.get(f[1]) if f is not None and f[0] == "glob" else None
-        if callee is not None and spliceable(prog, fi, callee) and len(callee.params) == len(e.term[2]) and not e.term[3] and not any(a[0] == "star" for a in e.term[2]):
-            cs = summarise(prog, callee)
-            args = T.replace(e.term[2], subst) if subst else e.term[2]
-            mapping = {T.var(p): a for p, a in zip(callee.params, args)}
-            add(e.kind, ("call", e.term[1], args, e.term[3]), e.node, e.stmt, guards, iters, e.tries, e.awaited, dict(e.extra, spliced_call=callee.qualname))
-            for ce in cs.events:
-                if ce.kind == "return":
-                    continue
-                add(ce.kind, T.replace(ce.term, mapping), ce.node, e.stmt, guards + T.replace(ce.guards, mapping), iters + T.replace(ce.iters, mapping),
-                    e.tries + ce.tries, ce.awaited, dict(ce.extra, via=callee.qualname))
-            rv = fold_returns(cs)
-            subst[e.term] = T.replace(rv, mapping) if rv is not None else T.NONE
-            changed = True
-            continue
-        add(e.kind, term, e.node, e.stmt, guards, iters, e.tries, e.awaited, e.extra)
-    if not changed:
-        fi._spliced = base  # type: ignore[attr-defined]
+    if fi.qualname in _SPLICING:
         return base
-    s = Summary(fi, out, [e for e in out if e.kind == "return"], base.env, base.locals, base.unknowns)
-    fi._spliced = s  # type: ignore[attr-defined]
-    return s
+    _SPLICING.add(fi.qualname)
+    try:
+        subst: Dict[Term, Term] = {}
+        out: List[Event] = []
+
+        def add(kind, term, node, stmt, guards, iters, tries, awaited, extra, raw=None) -> Event:
+            ev = Event(len(out), kind, term, term if raw is None else raw, node, stmt, guards, iters, tries, awaited, extra)
+            out.append(ev)
+            return ev
+
+        changed = False
+        skip_await_of: Set[Term] = set()
+        for e in base.events:
+            term = T.replace(e.term, subst) if subst else e.term
+            guards = T.replace(e.guards, subst) if subst else e.guards
+            iters = T.replace(e.iters, subst) if subst else e.iters
+            if e.kind == "await" and e.term in skip_await_of:
+                continue              # the await of a spliced coroutine helper: its own awaits stand here now
+            callee, recv = _resolve_callee(prog, fi, e) if e.kind == "call" else (None, None)
+            if callee is not None and spliceable(prog, fi, callee) and (not callee.is_async or e.awaited):
+                args = T.replace(e.term[2], subst) if subst else e.term[2]
+                kws = T.replace(e.term[3], subst) if subst else e.term[3]
+                mapping = _bind_params(callee, T.replace(recv, subst) if (recv is not None and subst) else recv, args, kws)
+                if mapping is not None:
+                    cs = spliced(prog, callee) if is_new_helper(callee) else summarise(prog, callee)
+                    # the call itself: a plain call event for helpers of the pinned tree; only a marker (kind
+                    # "spliced") for helpers introduced later, whose call is not a fact of its own
+                    add("spliced" if is_new_helper(callee) else e.kind, ("marker", callee.qualname) if is_new_helper(callee) else ("call", e.term[1], args, kws), e.node, e.stmt, guards, iters, e.tries, e.awaited, dict(e.extra, spliced_call=callee.qualname))
+                    # locals of the helper must not collide with the caller's names
+                    locs = {T.var(n): T.var(f"{n}§{callee.name}") for n in cs.locals if T.var(n) not in mapping}
+                    full = dict(locs)
+                    full.update(mapping)
+                    for ce in cs.events:
+                        if ce.kind == "return":
+                            continue
+                        add(ce.kind, T.replace(ce.term, full), ce.node, e.stmt, guards + T.replace(ce.guards, full), iters + T.replace(ce.iters, full),
+                            e.tries + ce.tries, ce.awaited, dict(ce.extra, via=callee.qualname), raw=T.replace(ce.raw, full))
+                    rv = fold_returns(cs)
+                    val = T.replace(rv, full) if rv is not None else T.NONE
+                    subst[e.term] = val
+                    if callee.is_async:
+                        subst[("await", e.term)] = val
+                        skip_await_of.add(e.term)
+                    changed = True
+                    continue
+            add(e.kind, term, e.node, e.stmt, guards, iters, e.tries, e.awaited, e.extra, raw=(T.replace(e.raw, subst) if subst else e.raw))
+        if not changed:
+            fi._spliced = base  # type: ignore[attr-defined]
+            return base
+        out = fuse_events(out)
+        s2 = Summary(fi, out, [e for e in out if e.kind == "return"], base.env, base.locals, base.unknowns)
+        fi._spliced = s2  # type: ignore[attr-defined]
+        return s2
+    finally:
+        _SPLICING.discard(fi.qualname)
